@@ -182,6 +182,9 @@ def c14_mrca(kw):
             if x in leaves:
                 x.taxon = None
         kwargs["is_bipartitions_updated"] = False
+        # mrca's domain: every leaf carries a taxon (re-rooting a tree whose seed has one child, without suppressing
+        # unifurcations, leaves the old seed behind as a taxon-less leaf)
+        assume(all(nd.taxon is not None for nd in tg.reachable(tree) if not nd._child_nodes))
     taxa = [leaves[i].taxon for i in sel if leaves[i].taxon is not None]
     assume(len(taxa) >= 1)
     labels = frozenset(t.label for t in taxa)
